@@ -116,6 +116,8 @@ func setupUniverse(timeT types.Type) {
 	generic1("offsetof", func(tp *types.TypeParam) types.Type { return it })
 	generic1("f64", func(tp *types.TypeParam) types.Type { return types.Typ[types.Float64] })
 	generic1("refof", func(tp *types.TypeParam) types.Type { return mathintType })
+	generic1("capof", func(tp *types.TypeParam) types.Type { return it })
+	generic1("lenof", func(tp *types.TypeParam) types.Type { return it })
 	{
 		tk := types.NewTypeParam(types.NewTypeName(token.NoPos, nil, "K", nil), types.Universe.Lookup("comparable").Type())
 		types.Universe.Insert(types.NewFunc(token.NoPos, nil, "visited", types.NewSignatureType(nil, nil, []*types.TypeParam{tk}, types.NewTuple(v("k", tk)), types.NewTuple(v("", bt)), false)))
